@@ -186,10 +186,12 @@ func runFixed(c *Ctx, r *Reporter) {
 					}
 					stores := fieldStores(a, field)
 					if len(stores) == 0 {
-						if isWholeStructCopy(a) {
-							continue // v2 := *v : copy of an existing node
+						if src := wholeStructCopySource(a); src != nil && derivesFromBuiltinsParam(src, 8) {
+							counts[fd.QName()+":"+named.Obj().Name()]++
+							construct := fmt.Sprintf("%s#copy-%s.%s[%d]", fd.QName(), named.Obj().Name(), field, counts[fd.QName()+":"+named.Obj().Name()])
+							r.Viol(construct, p.Rel(instrPos(a)), fmt.Sprintf("a %s handed in through parser.Builtins is copied without passing its %s through fixedType: results of built-ins would be convertible like literals (e.g. `a:[]any` `a = split …` is accepted and wrapAny panics)", named.Obj().Name(), field))
 						}
-						continue
+						continue // v2 := *v : copy of a node the parser built itself
 					}
 					counts[fd.QName()+":"+named.Obj().Name()]++
 					construct := fmt.Sprintf("%s#new-%s.%s[%d]", fd.QName(), named.Obj().Name(), field, counts[fd.QName()+":"+named.Obj().Name()])
@@ -239,6 +241,52 @@ func okSourceRec(v ssa.Value, fixedSSA *ssa.Function, depth int) (bool, string) 
 		return true, ""
 	}
 	return false, ""
+}
+
+// wholeStructCopySource: for `x := *src`, the pointer src.
+func wholeStructCopySource(a *ssa.Alloc) ssa.Value {
+	for _, ref := range *a.Referrers() {
+		if st, ok := ref.(*ssa.Store); ok && st.Addr == ssa.Value(a) {
+			if u, ok := st.Val.(*ssa.UnOp); ok && u.Op == token.MUL {
+				return u.X
+			}
+		}
+	}
+	return nil
+}
+
+// derivesFromBuiltinsParam: v is obtained from a parameter of type parser.Builtins (field, map lookup, range).
+func derivesFromBuiltinsParam(v ssa.Value, depth int) bool {
+	if depth == 0 {
+		return false
+	}
+	switch x := v.(type) {
+	case *ssa.Parameter:
+		n := namedOf(x.Type())
+		return n != nil && n.Obj().Name() == "Builtins"
+	case *ssa.Extract:
+		return derivesFromBuiltinsParam(x.Tuple, depth-1)
+	case *ssa.Next:
+		return derivesFromBuiltinsParam(x.Iter, depth-1)
+	case *ssa.Range:
+		return derivesFromBuiltinsParam(x.X, depth-1)
+	case *ssa.Lookup:
+		return derivesFromBuiltinsParam(x.X, depth-1)
+	case *ssa.Field:
+		return derivesFromBuiltinsParam(x.X, depth-1)
+	case *ssa.FieldAddr:
+		return derivesFromBuiltinsParam(x.X, depth-1)
+	case *ssa.UnOp:
+		return derivesFromBuiltinsParam(x.X, depth-1)
+	case *ssa.Alloc:
+		// local copy of the parameter
+		for _, ref := range *x.Referrers() {
+			if st, ok := ref.(*ssa.Store); ok && st.Addr == ssa.Value(x) && derivesFromBuiltinsParam(st.Val, depth-1) {
+				return true
+			}
+		}
+	}
+	return false
 }
 
 func isWholeStructCopy(a *ssa.Alloc) bool {
